@@ -384,6 +384,11 @@ def main():
     cells = {"t<0", "t=0", "inside", "t=T", "t>T"}
     Tall = {(1, 1), (2, 1), (5, 2)}
     miss = []
+    high = {n for n, _ in cov.get("eval_n_m", set()) if n > 7}
+    if not high or max(high) < 24 or {c for n, c in cov.get("eval_n_cell", set()) if n > 7} != {"t=0", "inside", "t=T"}:
+        miss.append(f"eval: high degrees (up to >= 24, at t = 0, T/2, T) never exercised: {sorted(high)}")
+    cov["eval_n_m"] = {x for x in cov.get("eval_n_m", set()) if x[0] <= 7}
+    cov["eval_n_cell"] = {x for x in cov.get("eval_n_cell", set()) if x[0] <= 7}
     if cov.get("eval_n_m", set()) != {(n, m) for n in range(8) for m in range(n + 1)}:
         miss.append("eval: some (degree, order) pair with order <= degree <= 7 never exercised")
     if cov.get("eval_n_cell", set()) != {(n, c) for n in range(8) for c in cells}:
